@@ -27,6 +27,8 @@ func draw(t *rapid.T) *pbt.Case {
 	}
 	c := &pbt.Case{}
 	c.Spec = gen.Default(gen.Regular()).With("netopsrc").Draw(t, rapid.IntRange(1, maxB).Draw(t, "budget"))
+	// ("the cause text alone when the prefix is empty")
+	gen.SprinkleEmpty(t, c.Spec)
 	if rapid.IntRange(0, 7).Draw(t, "twin") == 0 {
 		// a secondary error that is a separately created, equal twin of the main error
 		c.Spec = &gen.Spec{K: rapid.SampledFrom([]string{"combine", "secondary"}).Draw(t, "sec"), C: c.Spec, X: []*gen.Spec{c.Spec.Clone()}}
@@ -160,6 +162,6 @@ func roleName(r gen.Role) string {
 }
 
 var prop = &pbt.Prop{ID: "C10", Part: "compose", Draw: draw, Check: check,
-	Valid: func(c *pbt.Case) bool { return gen.SpecRegular(c.Spec) }}
+	Valid: func(c *pbt.Case) bool { return gen.SpecRegularOrEmpty(c.Spec) }}
 
 func TestProp(t *testing.T) { pbt.Run(t, prop) }
